@@ -329,6 +329,21 @@ class NullAnalysis:
                 if succ != empty_target:
                     self.learn(d, vals, heap, alias)
             return
+        if d.kind == 'bin' and d.args[0] in ('Lt', 'Gt') and self.EMPTY is not None:
+            # x < EMPTY_REF (= u32::MAX) is x != EMPTY_REF
+            x0, y0 = strip(d.args[1]), strip(d.args[2])
+            small, big = (x0, y0) if d.args[0] == 'Lt' else (y0, x0)
+            if self.prog.is_empty_ref(big):
+                tvv = None
+                for val, tb in t['targets']:
+                    if tb == succ and t['otherwise'] != succ:
+                        tvv = val
+                if tvv is None and t['otherwise'] == succ:
+                    listed = [val for val, _ in t['targets']]
+                    tvv = 1 if listed == [0] else (0 if listed == [1] else None)
+                if tvv:
+                    self.learn(small, vals, heap, alias)
+            return
         if d.kind != 'bin' or d.args[0] not in ('Eq', 'Ne'):
             return
         if is_debug_assert(d.span):
